@@ -475,8 +475,9 @@ func (runInfo *runInfoStruct) invokeItemExpr(expr *ast.ItemExpr) {
 		if item.Kind() != reflect.String {
 			runInfo.rv = item.Index(index)
 		} else {
-			// String
-			runInfo.rv = item.Index(index).Convert(stringType)
+			// String: the element is the byte at the index (as a one-byte string, like s[i:i+1]),
+			// not the character whose number is that byte
+			runInfo.rv = reflect.ValueOf(item.String()[index : index+1])
 		}
 	case reflect.Map:
 		runInfo.rv = getMapIndex(runInfo.rv, item)
